@@ -140,7 +140,10 @@ func (s *story) joinPhase(op string) (in bool) {
 			s.add(step{Op: "self"})
 		}
 		s.add(step{Op: "await", Label: l, Must: true})
-		return false // unknown, treat as out: only steers generation
+		// either outcome is legal; put the occupant out for sure before going on
+		s.add(step{Op: "kick"})
+		s.add(step{Op: "barrier"})
+		return false
 	default: // error and self-presence both arrive
 		s.shape = append(s.shape, 'B')
 		l := s.launch(op)
@@ -153,6 +156,8 @@ func (s *story) joinPhase(op string) (in bool) {
 			s.add(step{Op: "error", N: s.nreq, Cond: roomErrors[r.Intn(len(roomErrors))][1]})
 		}
 		s.add(step{Op: "await", Label: l, Must: true})
+		s.add(step{Op: "kick"})
+		s.add(step{Op: "barrier"})
 		return false
 	}
 }
@@ -241,6 +246,7 @@ func genStory(r *rand.Rand, room int) *story {
 			}
 			s.add(step{Op: "cancel", Label: l})
 			s.add(step{Op: "await", Label: l, Must: true})
+			s.add(step{Op: "kick"})
 			s.add(step{Op: "barrier"})
 		}
 		if in {
